@@ -3,8 +3,9 @@
 TIER=${1:-quick}; shift
 IDS=${@:-C01 C02 C03 C04 C05 C06 C07 C08 C09 C10 C11 C12 C13 C14 C15 C16 C17 C18 C19}
 cd /verif
-FIRST=1
+NOBUILD=""
 for id in $IDS; do
-  if [ $FIRST = 1 ]; then bin/check $id --tier $TIER > work/all_$id.out 2> work/all_$id.err; FIRST=0; else bin/check $id --tier $TIER --no-build > work/all_$id.out 2> work/all_$id.err; fi
-  echo "$id exit=$? $(tail -1 work/all_$id.out | cut -c1-160)"
+  bin/check $id --tier $TIER $NOBUILD > work/all_$id.out 2> work/all_$id.err; RC=$?
+  NOBUILD="--no-build"
+  echo "$id exit=$RC violations=$(grep -c '^VIOLATION' work/all_$id.out) $(tail -1 work/all_$id.err | cut -c1-120)"
 done
